@@ -22,6 +22,8 @@ CLAIMED["C07"] = ("4/C07", "Inductive step of the real Gateway.send / outgoing s
 CLAIMED["C08"] = ("4/C08", "The real flush loop runs over a transport stub whose every write attempt has its own symbolic fault bit (so the solver covers all subsets and positions of failing writes), across 2-3 wakes of two nodes with up to four parked commands; after every wake each command must be parked xor written exactly once, a faulted wake must raise a transport error out of listen, and fault-free wakes must release the rest. Path tree exhausted; bounded model checking.")
 CLAIMED["C09"] = ("4/C09", "The real listener (flush) and 1-3 real send coroutines run under a cooperative scheduler in which the task resumed at each transport-write suspension point is a symbolic input; the path tree therefore enumerates every feasible interleaving (asyncio has no other preemption points). At quiescence z3-decided assertions check last-sent == last-written per key, no unsent value written, no value written twice. Path tree exhausted; bounded model checking over schedules.")
 CLAIMED["C12"] = ("4/C12", "The real Gateway.send and outgoing handlers are executed for every command with symbolic node/child/ack/type/payload, symbolic buffering flag and destination unknown/awake/sleeping; each path must end in exactly one of: the exact encoded line written, held and written at the destination's next wake (the wake is then fed to listen), or a library error; non-message objects must be rejected as InvalidMessageError. Path tree exhausted; bounded model checking.")
+CLAIMED["C13"] = ("4/C13", "Registries reached through symbolic histories of received lines on a real gateway, and directly constructed registries with symbolic field values (types in [-2^40,2^40], battery in [0,100], symbolic strings), are saved by the real Persistence.save and loaded by the real Persistence.load into an empty registry over an in-memory file system; values stay symbolic through a structure-preserving json fake, so schema-level accept/reject (e.g. the battery range) is decided by z3 for all values; every path's witness is re-run through the real json on real JSON text; legacy layout == native layout; awkward strings through the real json. Path tree exhausted; bounded model checking.")
+CLAIMED["C14"] = ("4/C14", "The real Persistence.load runs on documents in which one JSON value at each of 21 nesting positions (native and legacy layout) is replaced by null / true / a symbolic integer / a symbolic or class-list string / [] / {} / [1] / {'a':1}, a field is dropped or an unknown field added, on every prefix of three valid files (cut position symbolic), on undecodable bytes, missing file, empty file and injected OSError; every path must end in success or PersistenceReadError; missing file => created with the current registry; empty => empty registry. Path tree exhausted; bounded model checking.")
 PENDING = {
 }
 
